@@ -38,7 +38,7 @@ var properties = map[string]*propDef{
 		NotDecided:  "the search in ScaleNote.GetDegree and the letter distance in Name.GetDegree over the 12,936-case product: that is an enumeration over runtime values, nothing sound can be said about it statically with the tools in reach. Most signature-row corruptions do not affect this property at all (only the tonic's accidental matters); they are C13's business.",
 	},
 	"C04": {
-		Rules:       []string{"GEN-YACC", "TOKENS", "LEXMODE", "PARSEERR", "EOFPRED", "UNDERSCORE"},
+		Rules:       []string{"GEN-YACC", "TOKENS", "LEXMODE", "PARSEERR", "EOFPRED", "UNDERSCORE", "ERRDROP"},
 		Technique:   "goyacc regeneration with AST comparison, token-set agreement between grammar and lexer, lexer-mode typestate on SSA, constant folding of loop predicates at EOF",
 		Explanation: "the shipped parser is AST-equal to what goyacc generates from chords.y and the grammar has 0 conflicts (so, trusting goyacc, it accepts exactly L(chords.y) over token strings); every terminal the rules use is produced by the lexer and nothing undeclared is; white space is discarded before every token, `;` skips to end of line, `{`/`}` and `_` switch the lexer modes and the modes are cleared again; a parser failure cannot be swallowed: parseText returns the lexer's error and every caller tests it before touching the tree (default reductions may store a result for a text that is then rejected); every lexer loop predicate is false at end of input, so a text cut inside a symbol, comment or metadata run terminates and is rejected; the grammar actions list each field from the right position.",
 		NotDecided:  "that the rune classes of scanSymbol / scanMetadata match an external description (the code is the documentation there); bounded-exhaustive acceptance against an independent recogniser.",
@@ -74,13 +74,13 @@ var properties = map[string]*propDef{
 		NotDecided:  "absence of implicit run-time panics in general (index, nil, division); `promptly` as a quantitative statement; the behaviour of cobra / yaml.v3 on malformed flags or YAML.",
 	},
 	"C10": {
-		Rules:       []string{"SCHEMA", "CODEC", "TAB-NOTATION", "TAB-REGEX", "TAB-DYNAMICS", "TAB-DEGREE", "BASE10", "VALIDATE", "NARROW", "WIRE"},
+		Rules:       []string{"SCHEMA", "CODEC", "TAB-NOTATION", "TAB-REGEX", "TAB-DYNAMICS", "TAB-DEGREE", "BASE10", "VALIDATE", "NARROW", "OPT", "APPLY", "WIRE"},
 		Technique:   "YAML schema comparison of producer and consumer types, Marshal/Unmarshal pairing, printer/parser table agreement",
 		Explanation: "what `text conv` and `write conv` hand to the YAML encoder has the key tree and scalar types `write` decodes (yaml.v3 silently ignores unknown keys, which is how this breaks); every scalar reachable from input.Instance has both directions, the decoders read the scalar text with the parser and the encoders print with String; printers and parsers share their tables (inverse maps built from the forward maps, notation marks longest-first, regex classes = printer alphabets, `/` separator numerator first, bare number = denominator 1, minor mark from capture 3); numerals are base 10.",
 		NotDecided:  "Parse(String(v)) == v for all values (a bijection over a value space); YAML quoting of arbitrary text (yaml.v3).",
 	},
 	"C11": {
-		Rules:       []string{"SPELL", "LEXMODE", "UNDERSCORE", "BASE10", "TOKENS", "WIRE"},
+		Rules:       []string{"SPELL", "LEXMODE", "UNDERSCORE", "BASE10", "TOKENS", "EOFPRED", "ERRDROP", "WIRE"},
 		Technique:   "lexer spelling table vs. consumer tables, type-dispatch check on every consumer of the accidental token",
 		Explanation: "the second sentence for every consumer: each use of ChordDegree.Accidental goes through the canonicaliser that dispatches on the token type, whose outputs (# and b) are spellings every consumer table understands, so every spelling the lexer accepts is honoured identically; trivia is discarded before every token and comments skip to end of line; `symbol: simple_symbol` and `symbol: UNDERSCORE simple_symbol` build the same node; numerals are base 10 so leading zeros do not change the value.",
 		NotDecided:  "byte identity of two runs' output (a relation over pairs of inputs); white space inside `{...}` (the lexer keeps inner spaces of metadata by design).",
@@ -149,6 +149,11 @@ var otherScope = map[string]map[string][]string{
 	// a log line or any other print on stdout lands in front of the MIDI bytes when the file goes to stdout
 	"C08": {"IOLAYER": {"*|os.Stdout", "*|fmt.Print", "*|cobra.Out"}},
 	// the search over the interval table ranges over a map: it is deterministic only while exactly one row qualifies
+	// texts and the bass survive the trip through the YAML document
+	"C10": {"OPT": {"play.midiArgs.writeWhenUpdated|meta"}},
+	// the same tokens on one long line or on several lines: nothing may be cut silently
+	"C04": {"ERRDROP": {"*bufio.Scanner", "cmd.parseText"}},
+	"C11": {"ERRDROP": {"*bufio.Scanner"}},
 	"C12": {"TAB-DEGREE": {"note.Degree.simpleSemitone|adjust", "note.Degree|adjust", "note.Degree.Semitone|order"}},
 	// an unknown --key must be refused, not answered with another key's scale
 	"C13": {"ERRFLOW": {"cmd.getScale", "op.NewScale", "cmd.getKey"}},
